@@ -178,6 +178,21 @@ func genFromSyntax(g *Gen, re *syntax.Regexp) string {
 	}
 }
 
+// reuseHosts derives host names a pattern is likely to match as a hostname request.
+func reuseHosts(pat string) []string {
+	p := strings.TrimPrefix(strings.TrimPrefix(pat, "@@"), "||")
+	p = strings.TrimLeft(p, "|*^")
+	end := strings.IndexAny(p, "^/*|$?")
+	if end >= 0 {
+		p = p[:end]
+	}
+	p = strings.ToLower(strings.Trim(p, "."))
+	if len(p) < 2 || strings.ContainsAny(p, ":\\()[]{}+") {
+		return nil
+	}
+	return []string{p, "www." + p, p + ".example.org"}
+}
+
 func init() {
 	register("c05", &Prop{
 		Gen: func(g *Gen, tier string, emit func(string)) {
@@ -310,6 +325,25 @@ func init() {
 			}
 			for _, u := range subjects {
 				try(u)
+			}
+			// one Request object refilled for another hostname (the DNS engine does this with its pooled requests): the
+			// answer for the second name is the answer a fresh request gets — nothing about the pre-check is remembered
+			if plain && flags == "" {
+				pat := text[:strings.Index(text, "$domain=x.org")]
+				for _, hn := range reuseHosts(pat) {
+					reused := rules.NewRequestForHostname("nothing-of-the-kind.invalid")
+					reused.SourceHostname, reused.SourceDomain = "x.org", "x.org"
+					fresh := rules.NewRequestForHostname(hn)
+					fresh.SourceHostname, fresh.SourceDomain = "x.org", "x.org"
+					var m1, m2 bool
+					if pn, _ := protect(func() {
+						_ = rule.Match(reused)
+						rules.FillRequestForHostname(reused, hn)
+						m1, m2 = rule.Match(reused), rule.Match(fresh)
+					}); !pn && m1 != m2 {
+						flags = "!REFILLED-REQUEST-ANSWERS-DIFFERENTLY:" + hx(hn)
+					}
+				}
 			}
 			// strings generated from the compiled expression itself
 			if re, perr := syntax.Parse(src, syntax.Perl); perr == nil {
